@@ -8,18 +8,18 @@ import algopy
 from algopy import UTPM
 from algopy import utils as U
 from ..core import case_seed
-from .. import gen
+from .. import gen, lin
 
 PID = 'C17'
 RULE = ('round trips over the shape alphabet x D x P x value kinds {random, integers, non-finite}; all pivot vectors '
         'piv[i] in [i,N-1] for N<=Nmax (N! each), each realised by A=P L U with |L_ij|<1 and verified on the actual output of '
-        'scipy.linalg.lu_factor; a class = (conversion, shape/UPLO/N, D, P, value kind); non-trivial = more than one '
+        'scipy.linalg.lu_factor; the polynomial-level conversion UTPM.piv2mat / UTPM.piv2det of the pivots of UTPM.lu2 (W L U = A modulo t^D, W and sign constant); a class = (conversion, shape/UPLO/N, D, P, value kind); non-trivial = more than one '
         'element or a non-identity permutation')
 ASSUMPTIONS = ['numpy.block / numpy.triu_indices / own cycle count are the independent models']
 NMAX = {'quick': 6, 'thorough': 9}
 SHAPES = [(), (1,), (3,), (2, 3), (3, 1), (2, 1, 2)]
 REQUIRED = ['base_and_dirs', 'utpm2dirs', 'symvec_vecsym', 'vecsym_symvec', 'symvec_triangular_storage', 'as_utpm', 'ndarray2utpm', 'shift',
-            'combine_blocks', 'coeff_op', 'piv2mat', 'piv2det', 'piv_plu']
+            'combine_blocks', 'coeff_op', 'piv2mat', 'piv2det', 'piv_plu', 'piv_utpm']
 EXHAUSTIVE_NOTE = 'pivot vectors enumerated completely up to Nmax'
 
 
@@ -38,6 +38,10 @@ def cases(tier, seed):
                     for uplo in 'FLU':
                         out.append({'kind': 'sym', 'seed': case_seed('C17', seed, D, P, kind, n, uplo),
                                     'params': {'D': D, 'P': P, 'vals': kind, 'n': n, 'UPLO': uplo}})
+    for D in Ds:
+        for P in Ps:
+            for N in (1, 2, 3, 4, 5):
+                out.append({'kind': 'piv_utpm', 'seed': case_seed('C17', seed, 'piv_utpm', D, P, N), 'params': {'D': D, 'P': P, 'N': N}})
     for N in range(1, NMAX[tier] + 1):
         allp = list(itertools.product(*[range(i, N) for i in range(N)]))
         chunk = 720
@@ -74,7 +78,44 @@ def run_case(ctx, case):
         return _conv(ctx, case['params'], rng)
     if k == 'sym':
         return _sym(ctx, case['params'], rng)
+    if k == 'piv_utpm':
+        return _piv_utpm(ctx, case['params'], rng)
     return _piv(ctx, case['params'], rng)
+
+
+def _piv_utpm(ctx, p, rng):
+    """polynomial level: the pivot polynomial returned by UTPM.lu2 converts (UTPM.piv2mat, UTPM.piv2det) to a constant
+    permutation W and a constant sign with W L U = A modulo t^D and det(A)_0 = sign * prod(diag(U_0)), direction by direction"""
+    D, P, N = p['D'], p['P'], p['N']
+    a = 0.5 * rng.normal(size=(D, P, N, N))
+    for pp in range(P):
+        a[0, pp] = gen.well_conditioned(rng, N, N)[rng.permutation(N)]          # rows shuffled: pivoting differs per direction
+    try:
+        PIV, L, Uu = UTPM.lu2(UTPM(a.copy()))
+        W = UTPM.piv2mat(PIV)
+        sg = UTPM.piv2det(PIV)
+    except Exception as e:
+        ctx.violation('piv_utpm:raises', {'D': D, 'P': P, 'N': N, 'error': repr(e)[:200]}); return
+    if W.data.shape != (D, P, N, N) or sg.data.shape != (D, P):
+        ctx.violation('piv_utpm:shape', {'W': W.data.shape, 'sign': sg.data.shape}); return
+    for pp in range(P):
+        piv = np.asarray(PIV.data[0, pp]).astype(int)
+        rows = _perm_from_piv(piv)
+        Pm = np.zeros((N, N)); Pm[rows, np.arange(N)] = 1.0
+        if not np.array_equal(W.data[0, pp], Pm) or np.any(W.data[1:, pp] != 0):
+            ctx.violation('piv_utpm:piv2mat:%s' % ('zeroth' if not np.array_equal(W.data[0, pp], Pm) else 'higher-coefficients-nonzero'),
+                          {'D': D, 'P': P, 'N': N, 'direction': pp, 'piv': piv.tolist()}); return
+        if sg.data[0, pp] != _parity(rows) or np.any(sg.data[1:, pp] != 0):
+            ctx.violation('piv_utpm:piv2det', {'D': D, 'P': P, 'N': N, 'direction': pp, 'piv': piv.tolist(), 'got': sg.data[:, pp].tolist()}); return
+        d0 = sg.data[0, pp] * np.prod(np.diag(Uu.data[0, pp]))
+        if not abs(d0 - np.linalg.det(a[0, pp])) <= 1e-9 * max(1.0, abs(d0)):
+            ctx.violation('piv_utpm:det', {'D': D, 'P': P, 'N': N, 'direction': pp, 'got': float(d0), 'want': float(np.linalg.det(a[0, pp]))}); return
+    LU, M1 = lin.cdot(L.data, Uu.data)
+    WLU, M2 = lin.cdot(W.data, LU)
+    e = lin.res_norm(WLU - a, M2 + np.abs(a))
+    if not e <= 1e-9:
+        ctx.violation('piv_utpm:WLU=A', {'D': D, 'P': P, 'N': N, 'residual': e}); return
+    ctx.ok('piv_utpm', ('piv_utpm', D, P, N), noise=e)
 
 
 def _conv(ctx, p, rng):
@@ -203,8 +244,6 @@ def _conv(ctx, p, rng):
 
 def _sym(ctx, p, rng):
     D, P, kind, n, uplo = p['D'], p['P'], p['vals'], p['n'], p['UPLO']
-    if kind == 'complex':
-        kind = 'random'
     cls = (D, P, kind, n, uplo)
     m = n * (n + 1) // 2
     iu = np.triu_indices(n)
@@ -212,7 +251,7 @@ def _sym(ctx, p, rng):
     vd = _vals(rng, (D, P, m), kind)
     for wrap in ('utpm', 'ndarray'):
         if wrap == 'ndarray':
-            v = vd[0, 0].copy(); Aref = np.zeros((n, n)); Aref[iu] = v; Aref.T[iu] = v
+            v = vd[0, 0].copy(); Aref = np.zeros((n, n), dtype=vd.dtype); Aref[iu] = v; Aref.T[iu] = v
             A = algopy.vecsym(v)
             v2 = algopy.symvec(A, uplo)
             ok = _same(A, Aref) and _same(v2, v)
@@ -222,7 +261,7 @@ def _sym(ctx, p, rng):
                 continue
             v = UTPM(vd.copy())
             A = [algopy.vecsym(v), UTPM.vecsym(v)][n % 2]
-            Aref = np.zeros((D, P, n, n))
+            Aref = np.zeros((D, P, n, n), dtype=vd.dtype)
             Aref[(slice(None), slice(None)) + iu] = vd
             Aref.transpose(0, 1, 3, 2)[(slice(None), slice(None)) + iu] = vd
             v2 = [algopy.symvec(A, uplo), UTPM.symvec(A, UPLO=uplo)][n % 2]
